@@ -235,6 +235,8 @@ var httpSpecs = map[string][]reqSpec{
 		{Verb: "GET", Path: "/rs/d1/k1", Binding: "var"},
 		{Verb: "POST", Path: "/vf.rs.D1/Get", Body: `{"a":"k2"}`, Binding: "implicit"},
 		{Verb: "GET", Path: "/rs/d1v2/k3", Binding: "var-rev2", OnlyFrom: "bd-rev2"},
+		{Verb: "GET", Path: "/rs/orgs/o/things/t", Binding: "var-rev2", OnlyFrom: "bd-rev2"},
+		{Verb: "GET", Path: "/rs/projects/p/things/t", Binding: "var-rev2", OnlyFrom: "bd-rev2"},
 	},
 	"/vf.rs.D2/Get": {
 		{Verb: "GET", Path: "/rs/d2/k1", Binding: "var"},
